@@ -76,6 +76,17 @@ def negotiate (cfgMaxIdle peerMaxIdle keepAlivePeriod : Int) : Int × Int :=
   let idle := if peerMaxIdle > 0 then min cfgMaxIdle peerMaxIdle else cfgMaxIdle
   (idle, min keepAlivePeriod (idle / 2))
 
+def minRemoteIdleTimeout : Int := Uquic.Gen.Protocol.MinRemoteIdleTimeout
+def timerGranularity : Int := Uquic.Gen.Protocol.TimerGranularity
+
+/-- wire/transport_parameters.go: a received max_idle_timeout (ms on the wire) is raised to
+    `MinRemoteIdleTimeout` before `applyTransportParameters` sees it -/
+def peerIdleSeen (wireMs : Int) : Int := max minRemoteIdleTimeout (wireMs * 1000000)
+
+/-- the idle timeout one endpoint ends up with, from its own `MaxIdleTimeout` and the peer's (both ns,
+    whole milliseconds) -/
+def negotiatedIdle (own peer : Int) : Int := (negotiate own (peerIdleSeen (peer / 1000000)) 0).1
+
 inductive Blocked | none | congestionLimited | hardBlocked
 deriving Repr, DecidableEq
 
